@@ -459,6 +459,17 @@ def run(ctx):
             ctx.check(how is not None, 'C12.R7', '%s|read(%s)' % (qn, U(c.args[0])), site, 'short read detected: %s' % how,
                       'the result of %s is used without any check of its size: BytearrayStream.read returns fewer bytes than asked for when the length field overruns the data, so the value decodes shorter than its declared length instead of the request being refused' % U(c))
     ctx.count('primitive_stream_reads', n_reads, 15)
+    # ---------------- R9 what the server decodes and echoes encodes to well-formed TTLV again
+    ctx.rule('C12.R9', 'values decoded from a request and echoed into the response (the unique batch item ID above all) encode to well-formed TTLV again: the padding count a decoded TextString/ByteString keeps is in 0..7 for every length (lifted from C01.R3 padding-arithmetic)')
+    from ..report import Ctx as _Ctx
+    from . import c01 as _c01
+    sub = _Ctx('C01', 'quick', ctx.src, 0)
+    _c01.run(sub)
+    lifted = [f for f in sub.findings if f.rule == 'C01.R3' and 'padding' in f.key]
+    for f in lifted:
+        ctx.fail('C12.R9', f.key, f.site, f.message + ' - a request whose batch item ID has such a length is then answered with a response no client can decode')
+    if not lifted:
+        ctx.ok('C12.R9', 'kmip/core/primitives.py', 'decoded text/byte strings keep a padding count in 0..7')
     ctx.not_decided += ['that no byte string makes response.write itself fail (then no response is sent; run() logs and continues)',
                         'decoder work bounds beyond per-iteration consumption; recursion depth of nested structures']
     ctx.assumptions += ['struct.unpack raises on a short buffer', 'socket.recv(n) returns at most n bytes']
